@@ -1434,6 +1434,14 @@ int QSexact_verify (
    return rval;
 }
 
+#ifdef QSX_VERIF
+/* verification hook (observe only): called at every decision of QSexact_solver
+ * event: 1 float solve failed, 2 float status, 3 float iterations, 4 optimal test verdict,
+ * 5 status of the rational basis evaluation, 6 optimal re-test verdict, 7 infeasibility array
+ * unavailable, 8 infeasibility test verdict, 9 infeasibility re-test verdict, 10 objective
+ * limit, 11 exit (level = return value, value = status) */
+void (*qsx_trace_cb) (int event, int level, int value) = 0;
+#endif
 /* ========================================================================= */
 int QSexact_solver (mpq_QSdata * p_mpq,
 										mpq_t * const x,
@@ -1474,6 +1482,9 @@ int QSexact_solver (mpq_QSdata * p_mpq,
 		dbl_QSload_basis (p_dbl, ebasis);
 	if (dbl_ILLeditor_solve (p_dbl, simplexalgo))
 	{
+#ifdef QSX_VERIF
+		if (qsx_trace_cb) qsx_trace_cb (1, 0, 0);
+#endif
 		MESSAGE(p_mpq->simplex_display ? 0: __QS_SB_VERB, 
 						"double approximation failed, code %d, "
 						"continuing in extended precision", rval);
@@ -1487,6 +1498,12 @@ int QSexact_solver (mpq_QSdata * p_mpq,
 	EGcallD(dbl_QSget_status (p_dbl, status));
 	last_status = *status;
 	EGcallD(dbl_QSget_itcnt(p_dbl, 0, 0, 0, 0, &last_iter));
+#ifdef QSX_VERIF
+	if (qsx_trace_cb) qsx_trace_cb (2, 0, *status);
+#endif
+#ifdef QSX_VERIF
+	if (qsx_trace_cb) qsx_trace_cb (3, 0, last_iter);
+#endif
 	/* deal with the problem depending on what status we got from our optimizer */
 	switch (*status)
 	{
@@ -1502,12 +1519,21 @@ int QSexact_solver (mpq_QSdata * p_mpq,
 		basis = dbl_QSget_basis (p_dbl);
 		if (QSexact_optimal_test (p_mpq, x_mpq, y_mpq, basis))
 		{
+#ifdef QSX_VERIF
+			if (qsx_trace_cb) qsx_trace_cb (4, 0, 1);
+#endif
 			optimal_output (p_mpq, x, y, x_mpq, y_mpq);
 			goto CLEANUP;
 		}
 		else
 		{
+#ifdef QSX_VERIF
+			if (qsx_trace_cb) qsx_trace_cb (4, 0, 0);
+#endif
 			EGcallD(QSexact_basis_status (p_mpq, status, basis, msg_lvl, &simplexalgo));
+#ifdef QSX_VERIF
+			if (qsx_trace_cb) qsx_trace_cb (5, 0, *status);
+#endif
 			if (*status == QS_LP_OPTIMAL)
 			{
 				if(!msg_lvl)
@@ -1518,11 +1544,17 @@ int QSexact_solver (mpq_QSdata * p_mpq,
 				EGcallD(mpq_QSget_pi_array (p_mpq, y_mpq));
 				if (QSexact_optimal_test (p_mpq, x_mpq, y_mpq, basis))
 				{
+#ifdef QSX_VERIF
+					if (qsx_trace_cb) qsx_trace_cb (6, 0, 1);
+#endif
 					optimal_output (p_mpq, x, y, x_mpq, y_mpq);
 					goto CLEANUP;
 				}
 				else
 				{
+#ifdef QSX_VERIF
+					if (qsx_trace_cb) qsx_trace_cb (6, 0, 0);
+#endif
 					last_status = *status = QS_LP_UNSOLVED;
 				}
 			}
@@ -1541,6 +1573,9 @@ int QSexact_solver (mpq_QSdata * p_mpq,
 		y_dbl = dbl_EGlpNumAllocArray (p_dbl->qslp->nrows);
 		if (dbl_QSget_infeas_array (p_dbl, y_dbl))
 		{
+#ifdef QSX_VERIF
+			if (qsx_trace_cb) qsx_trace_cb (7, 0, 0);
+#endif
 			MESSAGE(p_mpq->simplex_display ? 0 : __QS_SB_VERB, "double approximation"
 							" failed, code %d, continuing in extended precision\n", rval);
 			goto MPF_PRECISION;
@@ -1549,14 +1584,23 @@ int QSexact_solver (mpq_QSdata * p_mpq,
 		dbl_EGlpNumFreeArray (y_dbl);
 		if (QSexact_infeasible_test (p_mpq, y_mpq))
 		{
+#ifdef QSX_VERIF
+			if (qsx_trace_cb) qsx_trace_cb (8, 0, 1);
+#endif
 			infeasible_output (p_mpq, y, y_mpq);
 			goto CLEANUP;
 		}
 		else
 		{
+#ifdef QSX_VERIF
+			if (qsx_trace_cb) qsx_trace_cb (8, 0, 0);
+#endif
 			MESSAGE (msg_lvl, "Retesting solution in exact arithmetic");
 			basis = dbl_QSget_basis (p_dbl);
 			EGcallD(QSexact_basis_status (p_mpq, status, basis, msg_lvl, &simplexalgo));
+#ifdef QSX_VERIF
+			if (qsx_trace_cb) qsx_trace_cb (5, 0, *status);
+#endif
 			#if 0
 			mpq_QSset_param (p_mpq, QS_PARAM_SIMPLEX_MAX_ITERATIONS, 1);
 			mpq_QSload_basis (p_mpq, basis);
@@ -1571,11 +1615,17 @@ int QSexact_solver (mpq_QSdata * p_mpq,
 				EGcallD(mpq_QSget_infeas_array (p_mpq, y_mpq));
 				if (QSexact_infeasible_test (p_mpq, y_mpq))
 				{
+#ifdef QSX_VERIF
+					if (qsx_trace_cb) qsx_trace_cb (9, 0, 1);
+#endif
 					infeasible_output (p_mpq, y, y_mpq);
 					goto CLEANUP;
 				}
 				else
 				{
+#ifdef QSX_VERIF
+					if (qsx_trace_cb) qsx_trace_cb (9, 0, 0);
+#endif
 					last_status = *status = QS_LP_UNSOLVED;
 				}
 			}
@@ -1587,6 +1637,9 @@ int QSexact_solver (mpq_QSdata * p_mpq,
 						"Problem found, not implemented to deal with this\n%s\n",__sp,__sp);
 		break;
 	case QS_LP_OBJ_LIMIT:
+#ifdef QSX_VERIF
+		if (qsx_trace_cb) qsx_trace_cb (10, 0, 0);
+#endif
 		rval=1;
 		IFMESSAGE(p_mpq->simplex_display,"Objective limit reached (in floating point) ending now");
 		goto CLEANUP;
@@ -1652,6 +1705,9 @@ int QSexact_solver (mpq_QSdata * p_mpq,
 		}
 		if (mpf_ILLeditor_solve (p_mpf, simplexalgo))
 		{
+#ifdef QSX_VERIF
+			if (qsx_trace_cb) qsx_trace_cb (1, (QS_EXACT_MAX_ITER - it), 0);
+#endif
 			if (p_mpq->simplex_display || DEBUG >= __QS_SB_VERB)
 			{
 				QSlog("mpf_%u precision falied, error code %d, continuing with "
@@ -1667,6 +1723,12 @@ int QSexact_solver (mpq_QSdata * p_mpq,
 		EGcallD(mpf_QSget_status (p_mpf, status));
 		last_status = *status;
 		EGcallD(mpf_QSget_itcnt(p_mpf, 0, 0, 0, 0, &last_iter));
+#ifdef QSX_VERIF
+		if (qsx_trace_cb) qsx_trace_cb (2, (QS_EXACT_MAX_ITER - it), *status);
+#endif
+#ifdef QSX_VERIF
+		if (qsx_trace_cb) qsx_trace_cb (3, (QS_EXACT_MAX_ITER - it), last_iter);
+#endif
 		/* deal with the problem depending on status we got from our optimizer */
 		switch (*status)
 		{
@@ -1682,12 +1744,21 @@ int QSexact_solver (mpq_QSdata * p_mpq,
 			mpf_EGlpNumFreeArray (y_mpf);
 			if (QSexact_optimal_test (p_mpq, x_mpq, y_mpq, basis))
 			{
+#ifdef QSX_VERIF
+				if (qsx_trace_cb) qsx_trace_cb (4, (QS_EXACT_MAX_ITER - it), 1);
+#endif
 				optimal_output (p_mpq, x, y, x_mpq, y_mpq);
 				goto CLEANUP;
 			}
 			else
 			{
+#ifdef QSX_VERIF
+				if (qsx_trace_cb) qsx_trace_cb (4, (QS_EXACT_MAX_ITER - it), 0);
+#endif
 				EGcallD(QSexact_basis_status (p_mpq, status, basis, msg_lvl, &simplexalgo));
+#ifdef QSX_VERIF
+				if (qsx_trace_cb) qsx_trace_cb (5, (QS_EXACT_MAX_ITER - it), *status);
+#endif
 				if (*status == QS_LP_OPTIMAL)
 				{
 					MESSAGE (msg_lvl, "Retesting solution");
@@ -1695,11 +1766,17 @@ int QSexact_solver (mpq_QSdata * p_mpq,
 					EGcallD(mpq_QSget_pi_array (p_mpq, y_mpq));
 					if (QSexact_optimal_test (p_mpq, x_mpq, y_mpq, basis))
 					{
+#ifdef QSX_VERIF
+						if (qsx_trace_cb) qsx_trace_cb (6, (QS_EXACT_MAX_ITER - it), 1);
+#endif
 						optimal_output (p_mpq, x, y, x_mpq, y_mpq);
 						goto CLEANUP;
 					}
 					else
 					{
+#ifdef QSX_VERIF
+						if (qsx_trace_cb) qsx_trace_cb (6, (QS_EXACT_MAX_ITER - it), 0);
+#endif
 						last_status = *status = QS_LP_UNSOLVED;
 					}
 				}
@@ -1716,14 +1793,23 @@ int QSexact_solver (mpq_QSdata * p_mpq,
 			mpf_EGlpNumFreeArray (y_mpf);
 			if (QSexact_infeasible_test (p_mpq, y_mpq))
 			{
+#ifdef QSX_VERIF
+				if (qsx_trace_cb) qsx_trace_cb (8, (QS_EXACT_MAX_ITER - it), 1);
+#endif
 				infeasible_output (p_mpq, y, y_mpq);
 				goto CLEANUP;
 			}
 			else
 			{
+#ifdef QSX_VERIF
+				if (qsx_trace_cb) qsx_trace_cb (8, (QS_EXACT_MAX_ITER - it), 0);
+#endif
 				MESSAGE (msg_lvl, "Retesting solution in exact arithmetic");
 				basis = mpf_QSget_basis (p_mpf);
 				EGcallD(QSexact_basis_status (p_mpq, status, basis, msg_lvl, &simplexalgo));
+#ifdef QSX_VERIF
+				if (qsx_trace_cb) qsx_trace_cb (5, (QS_EXACT_MAX_ITER - it), *status);
+#endif
 #if 0
 				mpq_QSset_param (p_mpq, QS_PARAM_SIMPLEX_MAX_ITERATIONS, 1);
 				mpq_QSload_basis (p_mpq, basis);
@@ -1738,11 +1824,17 @@ int QSexact_solver (mpq_QSdata * p_mpq,
 					EGcallD(mpq_QSget_infeas_array (p_mpq, y_mpq));
 					if (QSexact_infeasible_test (p_mpq, y_mpq))
 					{
+#ifdef QSX_VERIF
+						if (qsx_trace_cb) qsx_trace_cb (9, (QS_EXACT_MAX_ITER - it), 1);
+#endif
 						infeasible_output (p_mpq, y, y_mpq);
 						goto CLEANUP;
 					}
 					else
 					{
+#ifdef QSX_VERIF
+						if (qsx_trace_cb) qsx_trace_cb (9, (QS_EXACT_MAX_ITER - it), 0);
+#endif
 						last_status = *status = QS_LP_UNSOLVED;
 					}
 				}
@@ -1751,6 +1843,9 @@ int QSexact_solver (mpq_QSdata * p_mpq,
 			break;
 			break;
 		case QS_LP_OBJ_LIMIT:
+#ifdef QSX_VERIF
+			if (qsx_trace_cb) qsx_trace_cb (10, (QS_EXACT_MAX_ITER - it), 0);
+#endif
 			rval=1;
 			IFMESSAGE(p_mpq->simplex_display,"Objective limit reached (in floating point) ending now");
 			goto CLEANUP;
@@ -1766,6 +1861,9 @@ int QSexact_solver (mpq_QSdata * p_mpq,
 	}
 	/* ending */
 CLEANUP:
+#ifdef QSX_VERIF
+	if (qsx_trace_cb) qsx_trace_cb (11, rval, *status);
+#endif
 	dbl_EGlpNumFreeArray (x_dbl);
 	dbl_EGlpNumFreeArray (y_dbl);
 	mpq_EGlpNumFreeArray (x_mpq);
